@@ -243,7 +243,7 @@ def run_numeric(prop, units, tier, seed, trusted_extra=(), design_ref='', lemmas
     t0 = time.time()
     rep = Report(prop)
     base = scratch('num-' + prop)
-    tmo = 60 if tier == 'quick' else 900
+    tmo = 120 if tier == 'quick' else 900      # the slowest function of the unchanged tree needs ~36 s (rans_sa), ~26 s (axi_cns_transient): >3x margin under load
     N = 20000 if tier == 'quick' else 2000000
     jobs = []
     under_all, not_under, extraction = [], [], {}
